@@ -31,6 +31,11 @@ PROGRAMS = [
     ["-m", '"bP', "-m", '"Byiw', "-m", '"bp', "-c", "$"],
     ["-v", "a", "-m", "yiw", "--else", "-m", "P", "-c", "$", "--end"],      # lines without an 'a' only yank, the others put first
     ["-g", "7", "-m", "yy", "--else", "-m", "p", "-c", "e", "--end"],
+    # a list that is nothing but one scope: both of its branches cut
+    ["-g", "7", "-c", "e", "--else", "-c", "$", "--end"],
+    ["-g", "a", "-c", "w", "--end"],
+    ["-v", "x", "-c", "e", "--else", "-c", "name=other", "w", "--end"],
+    ["-g", "^$", "-c", "l", "--else", "-c", "e", "-n", "-c", "w", "--end"],
 ]
 
 
@@ -102,13 +107,16 @@ def _run(chk, binary, rng, thorough, nsc, nruns):
         scs.append(("files", {"files": files, "opts": [], "cmds": ["-m", "yy", "-g", "x+$", "-m", "~", "--end", "-m", "Gp"], "stdin": None,
                               "threads": [8, 16, 32, 4, 16]}))
     for i in range(nsc):
-        prog = rng.choice(PROGRAMS)
+        from_grammar = rng.random() >= 0.8
+        prog = L.render(L.gen_items(rng, maxdepth=2, maxlen=4)) if from_grammar else rng.choice(PROGRAMS)     # now and then a list from the whole grammar
         r = rng.random()
         fopts = [] if r < 0.5 else (["-d", ","] if r < 0.7 else (["--json"] if r < 0.85 else ["-t", "{{1}}"] if any(x == "-c" for x in prog) and not any(x.startswith("name=") for x in prog) else []))
         kind = rng.choice(["stdin-lw", "stdin-lw", "files-lw", "files", "files", "files-inplace", "files-lw-inplace"])
         if rng.random() < 0.25 and "--else" in prog:
             fopts = fopts + ["--silent"]
         nlines = rng.choice([1, 2, 7, 40, 200, 2000 if thorough else 300])
+        if from_grammar:
+            nlines = min(nlines, 40)           # (repeats and scopes of a random list multiply the work per line)
         if kind == "stdin-lw":
             sc = {"files": [], "opts": fopts + ["--linewise"], "cmds": prog, "stdin": big_text(rng, nlines)}
         else:
@@ -118,7 +126,7 @@ def _run(chk, binary, rng, thorough, nsc, nruns):
             names = ["f%02d.txt" % (rng.randint(0, 99)) for _ in range(nf)]
             names = list(dict.fromkeys(names))
             rng.shuffle(names)
-            files = [(nm, big_text(rng, rng.choice([0, 1, 3, 20, 150, 600, nlines // 4 + 1])).encode()) for nm in names]
+            files = [(nm, big_text(rng, rng.choice([0, 1, 3, 20, 20, 20, 11] if from_grammar else [0, 1, 3, 20, 150, 600, nlines // 4 + 1])).encode()) for nm in names]
             opts = list(fopts)
             if "lw" in kind:
                 opts.append("--linewise")
